@@ -32,6 +32,7 @@ package hessian
 import (
 	"bufio"
 	"bytes"
+	"fmt"
 	"io"
 	"reflect"
 	"time"
@@ -122,7 +123,7 @@ func (d *Decoder) ReadObject() (obj interface{}, err error) {
 	// data that does not match the registered Go types makes reflect panic: report it as an error
 	defer func() {
 		if r := recover(); r != nil {
-			obj, err = nil, newCodecError("ReadObject", "malformed or mismatching data: %v", r)
+			obj, err = nil, newCodecError("ReadObject", "malformed or mismatching data: %s", fmt.Sprint(r))
 		}
 	}()
 	return EnsureInterface(d.ReadData())
